@@ -55,7 +55,7 @@ func c07Matchers(run *Run) {
 	var inputs [][]byte
 	var kinds []string
 	for _, cd := range codecDefs() {
-		for i := 0; i < run.N(6, 60); i++ {
+		for i := 0; i < run.N(4, 60); i++ {
 			b := cd.Gen(r, false).Bytes
 			if len(b) > 300 {
 				b = b[:300]
@@ -76,7 +76,7 @@ func c07Matchers(run *Run) {
 	col[5] = 0xbc
 	inputs = append(inputs, col)
 	kinds = append(kinds, "bolt-collides-with-dubbo-thrift")
-	for i := 0; i < run.N(40, 400); i++ {
+	for i := 0; i < run.N(25, 400); i++ {
 		b := r.Bytes(r.Intn(30))
 		inputs = append(inputs, b)
 		kinds = append(kinds, "random")
@@ -138,6 +138,103 @@ func c07Matchers(run *Run) {
 			if sh.Len() >= 400 {
 				sh.Close()
 				sh = run.NewShard(sh.Header, sh.Typ, sh.Eval)
+			}
+		}
+	}
+	sh.Close()
+}
+
+// ---- the REAL SelectStreamFactoryProtocol on every prefix of a valid first frame of every protocol -------------
+
+var selNames = []string{"bolt", "boltv2", "dubbo", "dubbo-thrift", "tars", "Http1", "Http2"}
+
+// selVerdict: 0 EAGAIN, 1 FAILED, 10+i protocol i (index in selNames / Model all_protos), 98 unknown protocol name
+func selVerdict(p []byte) (int, string) {
+	pn, err := protocol.SelectStreamFactoryProtocol(context.Background(), "", p, nil)
+	switch err {
+	case nil:
+		for i, n := range selNames {
+			if string(pn) == n {
+				return 10 + i, n
+			}
+		}
+		return 98, string(pn)
+	case protocol.EAGAIN:
+		return 0, "EAGAIN"
+	}
+	return 1, "FAILED"
+}
+
+func c07Select(run *Run) {
+	r := run.R
+	sh := run.NewShard("From MV Require Import Lib.Bytes Model.Matchers.\nFrom Coq Require Import List NArith.\nImport ListNotations.\nOpen Scope N_scope.\n", "sel_case", "sel_mismatches")
+	shBytes := 0
+	type first struct {
+		proto string
+		b     []byte
+	}
+	var firsts []first
+	defs := codecDefs()
+	for _, cd := range defs {
+		want := cd.Name
+		for i := 0; i < run.N(4, 40); i++ {
+			var b []byte
+			for tries := 0; tries < 50; tries++ {
+				b = cd.Gen(r, false).Bytes
+				// the frame must start with the codec's own protocol code (the bolt generators mix the two bolt versions)
+				if (want == "bolt" && b[0] != 1) || (want == "boltv2" && b[0] != 2) {
+					continue
+				}
+				if len(b) <= 400 && (want != "tars" || len(b) >= 30) {
+					break
+				}
+			}
+			firsts = append(firsts, first{want, b})
+		}
+	}
+	// tars packages of 30..300 bytes explicitly (the matcher answers Again until the whole package is buffered)
+	for _, n := range []int{0, 10, 40, 100, 200, 250} {
+		firsts = append(firsts, first{"tars", tarsReq(int32(r.U64()), "svc."+randName(r, 5), "fn", r.Bytes(n), map[string]string{"k": "v"})})
+		firsts = append(firsts, first{"tars", tarsResp(int32(r.U64()), int32(r.Intn(3))-1, r.Bytes(n), "d")})
+	}
+	for _, m := range []string{"GET", "POST", "DELETE", "OPTIONS", "CONNECT", "PATCH"} {
+		firsts = append(firsts, first{"Http1", []byte(m + " /a/b?c=d HTTP/1.1\r\nHost: x\r\nContent-Length: 0\r\n\r\n")})
+	}
+	firsts = append(firsts, first{"Http2", []byte("PRI * HTTP/2.0\r\n\r\nSM\r\n\r\n\x00\x00\x00\x04\x00\x00\x00\x00\x00")})
+	for fi, f := range firsts {
+		whole, wname := selVerdict(f.b)
+		acc := 0
+		for _, v := range realMatch(f.b) {
+			if v == 1 {
+				acc++
+			}
+		}
+		rep0 := map[string]interface{}{"protocol": f.proto, "frame_len": len(f.b), "frame_hex": Hex(clip(f.b, 1024)), "one_read_verdict": wname}
+		if acc > 1 {
+			continue // two matchers accept the whole frame: the listed collision, reported by c07Matchers
+		}
+		if wname != f.proto {
+			run.Fail("automatch:valid-first-frame-not-detected:"+f.proto, fmt.Sprintf("a valid first %s frame delivered in one read is detected as %s", f.proto, wname), rep0)
+		}
+		for k := 0; k <= len(f.b); k++ {
+			v, name := selVerdict(f.b[:k])
+			run.Count(fmt.Sprintf("sel|%d|%d", fi, k), k > 0 && k < len(f.b), "select:"+f.proto)
+			// a verdict on a prefix must be the one-read verdict or EAGAIN; FAILED / another protocol on a prefix means that
+			// the detected protocol depends on where the first read ends
+			if v != 0 && v != whole {
+				rep := map[string]interface{}{"protocol": f.proto, "frame_len": len(f.b), "frame_hex": Hex(clip(f.b, 1024)), "cut": k, "prefix_verdict": name, "one_read_verdict": wname}
+				run.Fail("automatch:verdict-depends-on-segmentation:"+f.proto, fmt.Sprintf("a first %s frame of %d bytes is detected as %s in one read, but a first read of %d bytes gets %s", f.proto, len(f.b), wname, k, name), rep)
+			}
+			if !run.Thorough() && k != len(f.b) && ((len(f.b) > 120 && k%9 != 0) || (len(f.b) > 45 && k > 30 && k%3 != 0)) {
+				continue
+			}
+			term := fmt.Sprintf("(%s, %d)", CoqBytes(f.b[:k]), v)
+			sh.Add(term, map[string]interface{}{"protocol": f.proto, "cut": k, "verdict": name})
+			shBytes += len(term)
+			if sh.Len() >= 400 || shBytes > 90000 {
+				sh.Close()
+				sh = run.NewShard(sh.Header, sh.Typ, sh.Eval)
+				shBytes = 0
 			}
 		}
 	}
